@@ -216,8 +216,11 @@ def finish(module, repo: Optional[Repo], res: Result, tier: str, seed: int, t0: 
     if violations:
         print(f"RESULT {pid}: {len(violations)} violation(s), {len(knowns)} known finding(s)")
         return 1
-    print(f"RESULT {pid}: held on all {len(res.obligations)} rule instances"
-          + (f" ({len(knowns)} known finding(s) listed)" if knowns else ""))
+    if knowns:
+        print(f"RESULT {pid}: no unlisted violation; {discharged} of {len(res.obligations)} rule instances hold, "
+              f"{len(knowns)} known finding(s) listed")
+    else:
+        print(f"RESULT {pid}: held on all {len(res.obligations)} rule instances")
     return 0
 
 
